@@ -128,7 +128,7 @@ pub fn main(tier: Tier, seed: u64) -> i32 {
         let first_n3 = cfgs.iter().position(|c| c.0 == 3) == Some(ci);
         if *n == 2 || (tier.is_thorough() && first_n3) {
             let space = SrvSpace { n: *n, concurrency: 1, policies: pols.clone(), seed: crate::exec::mix(seed, 1400 + ci as u64), msg_policy: MsgPolicy::Eager };
-            let ex = explore(&space, vec![], &coordination_only, &xbudget, if tier.is_thorough() { 100_000 } else { 3_000 }, true);
+            let ex = explore(&space, vec![], &coordination_only, &xbudget, if tier.is_thorough() { 30_000 } else { 3_000 }, true);
             coord_capped |= ex.capped;
             for m in ex.machinery.iter().take(2) {
                 rep.machinery(m.clone());
@@ -141,7 +141,7 @@ pub fn main(tier: Tier, seed: u64) -> i32 {
                     let cmds = if *n == 2 {
                         menu(*n, party, false)
                     } else {
-                        vec![Stray::ScheduleSame, Stray::Run, Stray::Msg { from: *n as u64, empty: false }, Stray::ValidateDup { wrong_hash: false }]
+                        vec![Stray::Run, Stray::Msg { from: *n as u64, empty: false }, Stray::ValidateDup { wrong_hash: false }]
                     };
                     for cmd in cmds {
                         if matches!(cmd, Stray::ScheduleSame | Stray::ScheduleOtherParty(_)) && !own_sched {
